@@ -21,7 +21,11 @@ EXPLANATION = (
     'into the same constructor slot; the alternative notations box/rectangle/rotrectangle build rectangles from their '
     'columns; (R4) sky regions and unsupported classes are skipped (continue / None sentinel tested by the caller); (R5) on '
     'read the stored meta has exactly {include iff "!"} ∪ {component iff the column}; (R6) the serialiser does not mutate the '
-    'regions; (R7) fresh component numbers are max(existing)+1+k. Not decided: column padding arithmetic, astropy table/FITS I/O.')
+    'regions; (R7) fresh component numbers are max(existing)+1+k; (R8) padding at the end; (R9) units converted, never relabelled; '
+    '(R10) the table builder, evaluated on three symbolic rows, stores the rows\' shape strings themselves in SHAPE (no '
+    'fixed-width conversion that could cut "!elliptannulus") and the padded row values of x, y, r, rotang in the same row '
+    'order; (R7b) the filled COMPONENT array is converted to a numeric dtype on every path to its return; (R11) the padding '
+    'the writer adds to shorter vector columns is not read back as polygon vertices. Not decided: astropy table/FITS I/O.')
 TRUSTED = ['np.atleast_1d keeps element order', 'QTable column access by name']
 ASSUMPTIONS = ['real arithmetic']
 
@@ -360,6 +364,58 @@ def r7(ctx):
                 'max(existing)+1+k to be distinct from every existing number', comp_fn.loc())
 
 
+def r7b(ctx):
+    """the COMPONENT column handed to the table is numeric on every path: an array built from values the function itself
+    tests against None is an object array, and filling the gaps in place keeps it one (a FITS file cannot hold it)."""
+    from ..cfg import CFG
+    m = ctx.model
+    ser, row_writer, par, row_reader, rmod = _funcs(m)
+    wmod = m.modules[ser.module]
+    comp_fn = None
+    for fi in wmod.functions.values():
+        if 'component' in fi.name:
+            comp_fn = fi
+    ctx.need(comp_fn is not None, 'fits write', 'component numbering function not found')
+    fn = comp_fn.node
+    construct = comp_fn.qualname.split(':')[1]
+    # arrays built without a dtype from a sequence
+    arrays = {}
+    for st in stmts_of(fn):
+        if isinstance(st, ast.Assign) and len(st.targets) == 1 and isinstance(st.targets[0], ast.Name) \
+                and isinstance(st.value, ast.Call) and (call_name(st.value) or '').split('.')[-1] in ('array', 'asarray') \
+                and not any(k.arg == 'dtype' for k in st.value.keywords):
+            arrays[st.targets[0].id] = st
+    believed_none = {a for a in arrays
+                     if any(isinstance(n, ast.Compare) and any(isinstance(o, (ast.Is, ast.IsNot)) for o in n.ops)
+                            and isinstance(n.comparators[0], ast.Constant) and n.comparators[0].value is None
+                            for n in ast.walk(fn))}
+    ctx.need(believed_none, construct, 'component array / None test not found')
+    cfg = CFG(fn, exceptions=False)
+    for a in sorted(believed_none):
+        fills = [i for i, st in cfg.stmt.items() if cfg.kind[i] == 'stmt' and isinstance(st, ast.Assign)
+                 and isinstance(st.targets[0], ast.Subscript) and norm(st.targets[0].value) == a]
+        convs = [i for i, st in cfg.stmt.items() if cfg.kind[i] == 'stmt' and isinstance(st, ast.Assign)
+                 and norm(st.targets[0]) == a and (
+                     f'{a}.astype(' in norm(st.value) or ('dtype=' in norm(st.value) and a in norm(st.value)))]
+        rets = [i for i, st in cfg.stmt.items() if cfg.kind[i] == 'stmt' and isinstance(st, ast.Return)
+                and st.value is not None and a in {n.id for n in ast.walk(st.value) if isinstance(n, ast.Name)}
+                and '.astype(' not in norm(st.value)]
+        bad = None
+        for f_ in fills:
+            for r_ in rets:
+                p_ = cfg.path_avoiding(f_, r_, without=convs)
+                if p_ is not None:
+                    bad = (f_, r_)
+        if bad:
+            ctx.bad(construct, 'object-column',
+                    f'`{a}` is built by np.array(...) from values that may be None (object dtype); after the gaps are filled in '
+                    f'place (line {cfg.stmt[bad[0]].lineno}) it is returned (line {cfg.stmt[bad[1]].lineno}) without a numeric '
+                    'conversion: the COMPONENT column of a list with some numbered and some unnumbered regions has dtype '
+                    'object and cannot be written to a FITS file', comp_fn.loc(cfg.stmt[bad[1]]))
+        else:
+            ctx.ok(construct + ':dtype', 'filled component array is converted to a numeric dtype before it is returned')
+
+
 def r8(ctx):
     m = ctx.model
     ser, row_writer, par, row_reader, rmod = _funcs(m)
@@ -414,6 +470,75 @@ def r9(ctx):
         ctx.bad(construct, 'pixel-unit', f'a column of plain rows is built as {show(t, 300)}; expected value*pix per row', col_fn.loc())
 
 
+def r10(ctx):
+    """table assembly: every column holds the rows' own values, row by row; SHAPE strings reach the table untouched."""
+    m = ctx.model
+    ser, row_writer, par, row_reader, rmod = _funcs(m)
+    wmod = m.modules[ser.module]
+    mk = [fi for fi in wmod.functions.values() if any((call_name(c) or '').endswith('QTable') for c in calls_in(fi.node))
+          and any(isinstance(n, ast.Subscript) and isinstance(n.ctx, ast.Store) for n in ast.walk(fi.node))]
+    ctx.need(len(mk) == 1, 'fits write', 'table-building function not identified')
+    mk = mk[0]
+    helpers = set()
+    for c in calls_in(mk.node):
+        for f in m.resolve_call(mk, c) or ():
+            helpers.add(f.qualname)
+    attrs = ('shape', 'x', 'y', 'r', 'rotang', 'component')
+    rows = [Obj('_RegionData', {k: Obj('val', {}, f'{k}{i}') for k in attrs}, None, None) for i in (1, 2, 3)]
+    ev = Evaluator(m, opaque_funcs=helpers)
+    out = ev.run(mk, [Tup(tuple(rows), 'list')], {})
+    vals = [v for _, v in out.returns]
+    ctx.need(vals, mk.qualname, 'no table returned')
+    t = vals[-1]
+    while isinstance(t, Ite):      # optional COMPONENT column: take the arm that has it
+        t = t.a if 'COMPONENT' in show(t.a, 4000) else t.b
+    cols = {}
+    while isinstance(t, App) and t.name == 'setitem' and len(t.args) == 3 and isinstance(t.args[1], Const):
+        cols.setdefault(t.args[1].v, t.args[2])
+        t = t.args[0]
+    ctx.need(cols, mk.qualname, f'table value not understood: {show(vals[-1], 200)}')
+    construct = mk.qualname.split(':')[1]
+    want_rows = lambda k: Tup(tuple(r.fields[k] for r in rows), 'list')      # noqa: E731
+    probs = []
+    shp = cols.get('SHAPE')
+    if shp is None:
+        probs.append('no SHAPE column')
+    elif not same(shp, want_rows('shape')):
+        probs.append(f'the SHAPE column is {show(shp, 160)}, not the rows\' shape strings themselves in row order (a fixed-width '
+                     'or otherwise converted column can cut names such as "!elliptannulus")')
+    for k in ('x', 'y', 'r', 'rotang'):
+        v = cols.get(k.upper())
+        ok = isinstance(v, App) and v.name.startswith('call:') and len(v.args) == 1 and same(v.args[0], want_rows(k))
+        if not ok:
+            probs.append(f'column {k.upper()} is {show(v, 120)}, not the padded rows\' {k} values in row order')
+    if 'COMPONENT' not in cols:
+        probs.append('no COMPONENT column on any path')
+    if probs:
+        ctx.bad(construct, 'table-assembly', '; '.join(probs), mk.loc())
+    else:
+        ctx.ok(construct, 'SHAPE = row strings; X/Y/R/ROTANG = padded row values; row order kept')
+
+
+def r11(ctx):
+    """variable-length rows: the writer pads shorter vector columns; a shape whose number of entries is part of its
+    geometry (polygon vertices) must be read back through something that removes the padding."""
+    m = ctx.model
+    ser, row_writer, par, row_reader, rmod = _funcs(m)
+    wmod = m.modules[ser.module]
+    pads = [(fi, c) for fi in wmod.functions.values() for c in calls_in(fi.node) if (call_name(c) or '').endswith('.pad')]
+    f, reg, out = read_row(m, 'polygon', 1, False)
+    ctx.need(reg is not None and isinstance(reg.fields.get('vertices'), Obj), 'polygon row', 'reader builds no polygon')
+    v = reg.fields['vertices']
+    bare = [k for k in ('x', 'y') if isinstance(v.fields.get(k), App) and v.fields[k].name == 'col']
+    if pads and bare:
+        ctx.bad('polygon row', 'padding-read-as-vertices',
+                f'the writer pads shorter X/Y vectors with zeros ({pads[0][0].name}) and the reader builds the polygon from the '
+                f'whole column ({show(v, 100)}): in a table holding polygons with different numbers of vertices the shorter ones '
+                'come back with extra (0, 0) vertices', f.loc())
+    else:
+        ctx.ok('polygon row', 'padding is removed (or never added) before the vertices are built')
+
+
 RULES = [
     RuleDef('R1', 'SHAPE name pipeline x include (writer name known to reader; "!" iff excluded)', r1, 8),
     RuleDef('R2', 'semi-axis halving/doubling agreement x include', r2, 7),
@@ -422,6 +547,9 @@ RULES = [
     RuleDef('R5', 'include/component meta on read (4 combinations)', r5, 4),
     RuleDef('R6', 'serialisers do not mutate the regions', r6, 2),
     RuleDef('R7', 'fresh component numbers', r7, 1),
+    RuleDef('R7b', 'filled COMPONENT column has a numeric dtype', r7b, 1),
     RuleDef('R8', 'column padding keeps value positions', r8, 1),
     RuleDef('R9', 'column entries keep their own units (converted, never relabelled)', r9, 2),
+    RuleDef('R10', 'table assembly: SHAPE strings untouched, columns = row values in row order', r10, 1),
+    RuleDef('R11', 'column padding never becomes polygon vertices', r11, 1),
 ]
